@@ -577,6 +577,50 @@ func newBothKeysP2ClaimsNamed(name string) psatoken.IClaims {
 	}}
 }
 
+// ---- an extension whose decoder has an ordinary bug: a table lookup with an
+// unchecked index taken from its own claim (values 0..2 are fine) ----
+
+const PanickyP2Name = "http://example.com/verif/panicky-on-p2"
+
+type PanickyP2Claims struct {
+	psatoken.P2Claims
+	Mode *int64 `cbor:"-75950,keyasint,omitempty" json:"mode,omitempty"`
+}
+
+var panickyModes = []string{"off", "on", "auto"}
+
+func (o PanickyP2Claims) MarshalCBOR() ([]byte, error) {
+	return encoding.SerializeStructToCBOR(hem, &o)
+}
+func (o *PanickyP2Claims) UnmarshalCBOR(data []byte) error {
+	if err := encoding.PopulateStructFromCBOR(hdm, data, o); err != nil {
+		return err
+	}
+	if o.Mode != nil {
+		_ = panickyModes[*o.Mode] // index out of range for modes the author did not think of
+	}
+	return nil
+}
+func (o PanickyP2Claims) MarshalJSON() ([]byte, error) { return encoding.SerializeStructToJSON(&o) }
+func (o *PanickyP2Claims) UnmarshalJSON(data []byte) error {
+	return encoding.PopulateStructFromJSON(data, o)
+}
+
+type panickyP2Profile struct{}
+
+func (panickyP2Profile) GetName() string { return PanickyP2Name }
+func (panickyP2Profile) GetClaims() psatoken.IClaims {
+	p := eat.Profile{}
+	if err := p.Set(PanickyP2Name); err != nil {
+		panic(err)
+	}
+	return &PanickyP2Claims{P2Claims: psatoken.P2Claims{
+		Profile:          &p,
+		SwComponents:     &psatoken.SwComponents[*psatoken.SwComponent]{},
+		CanonicalProfile: PanickyP2Name,
+	}}
+}
+
 // faultyFactoryProfile: a profile whose factory returns nil or panics.
 type faultyFactoryProfile struct {
 	name string
